@@ -68,6 +68,35 @@ def diagonal(sent, order, tol=1e-12):
 
 
 def dense(sent, order):
+    """Dense matrix of a sentence. A Pauli word is a signed permutation: column s goes to row s ^ flip with amplitude
+    i^(#Y) (-1)^(popcount(s & (Z|Y positions))) (X|s> = |1-s>, Z|s> = (-1)^s|s>, Y|s> = i(-1)^s|1-s>). O(2^n) per word
+    instead of a 4^n Kronecker product per word (which took > 1 min for the 11-arc cycle mixers); `dense_kron` is the
+    textbook construction kept for the selftest."""
+    n = len(order)
+    if n > 12:
+        raise ValueError(f"dense matrix on {n} wires requested (the generators must bound sizes by construction)")
+    pos = {w: i for i, w in enumerate(order)}
+    M = np.zeros((2**n, 2**n), dtype=complex)
+    s = np.arange(2**n)
+    for word, c in sent.items():
+        flip = par = ny = 0
+        for w, p in word:
+            bit = 1 << (n - 1 - pos[w])
+            if p in "XY":
+                flip |= bit
+            if p in "YZ":
+                par |= bit
+            ny += p == "Y"
+        t = s & par
+        sign = np.zeros(2**n, dtype=np.int64)
+        while t.any():
+            sign ^= t & 1
+            t = t >> 1
+        M[s ^ flip, s] += c * (1j) ** ny * (1 - 2 * sign)
+    return M
+
+
+def dense_kron(sent, order):
     n = len(order)
     pos = {w: i for i, w in enumerate(order)}
     M = np.zeros((2**n, 2**n), dtype=complex)
@@ -204,6 +233,14 @@ def selftest():
         assert np.allclose(dense(sent, [0, 1, 2]), bit_flip_matrix(3, [(0, 1), (1, 2)], b))
     sxy = {frozenset({(0, "X"), (1, "X")}): 0.5, frozenset({(0, "Y"), (1, "Y")}): 0.5}
     assert np.allclose(dense(sxy, [0, 1]), xy_matrix(2, [(0, 1)]))
+    # permutation-based dense() against the Kronecker construction on a random sentence with X, Y, Z on 4 labelled wires
+    rng = np.random.default_rng(7)
+    wires4 = ["q", 3, 0, "a"]
+    rnd = {}
+    for _ in range(25):
+        add_word(rnd, complex(rng.normal(), rng.normal()), [(w, "IXYZ"[rng.integers(4)]) for w in wires4])
+    assert np.allclose(dense(rnd, wires4), dense_kron(rnd, wires4))
+    assert np.allclose(dense({frozenset({("q", "Y")}): 1.0}, ["q"]), _P["Y"])
     sx = {frozenset({(0, "X")}): 1.0, frozenset({(1, "X")}): 1.0}
     assert np.allclose(dense(sx, [0, 1]), x_matrix(2))
     arcs = [(0, 1), (1, 0), (0, 2)]
